@@ -47,6 +47,7 @@ func runDirectedC04(t *testing.T, rc *core.RunCtx) {
 	}
 	a := int32(tp.Range(1, n-2))
 	var first, lagging, honest *SimPeer
+	var more []*SimPeer
 	if variant == "late-better-peer" {
 		lb := lat()
 		lb.NoCF = tp.Chance(2, 3)
@@ -61,8 +62,16 @@ func runDirectedC04(t *testing.T, rc *core.RunCtx) {
 		a = int32(1 + tp.Intn(3))
 		first = w.addPeer("first", plan.main, fb)
 		lagging = w.addPeer("lagging", plan.main.Ancestor(a), lat())
+		// (two or three such nodes: each attempt to choose a new sync
+		// peer drops the candidates that have fallen behind)
+		for k := 1 + tp.Intn(2); k > 0; k-- {
+			more = append(more, w.addPeer("lagging", plan.main.Ancestor(int32(1+tp.Intn(int(a)))), lat()))
+		}
 		honest = w.addPeer("honest", plan.main, lat())
 		lagging.setUp(false)
+		for _, p := range more {
+			p.setUp(false)
+		}
 		honest.setUp(false)
 	}
 	rc.Logf("directed C04 scenario %s: chain %d blocks, lagging node at %d", variant, n, a)
@@ -89,6 +98,10 @@ func runDirectedC04(t *testing.T, rc *core.RunCtx) {
 		ok = w.runFor(time.Minute, shook(first))
 		lagging.setUp(true)
 		ok = ok && w.runFor(time.Minute, shook(lagging))
+		for _, p := range more {
+			p.setUp(true)
+			ok = ok && w.runFor(time.Minute, shook(p))
+		}
 		honest.setUp(true)
 		ok = ok && w.runFor(time.Minute, shook(honest))
 		// The sync peer goes away once the client is past the lagging
